@@ -791,6 +791,253 @@ func runStateChain(c *vcommon.Case) {
 }
 
 // ---------------------------------------------------------------------------
+// dot/state path, production-style chains R1 -> R2 -> ...: every successor is
+// obtained with TrieState(&Rprev) either on the instance that already caches
+// Rprev (cache hit) or on a fresh instance whose first contact with Rprev is
+// that very call (cache MISS: LoadFromDB inside TrieState), modified and
+// stored; after EVERY step EVERY earlier root is read back by root hash through
+// the same instance and through a fresh one and compared with its own model.
+
+type storedRoot struct {
+	root   common.Hash
+	main   *vcommon.OrdMap
+	childs childModels
+	step   int
+}
+
+// rereadRoot compares everything the storage state serves for sr.root with sr's model.
+func rereadRoot(c *vcommon.Case, inst *state.InmemoryStorageState, via string, sr storedRoot, pool [][]byte,
+	wit func(map[string]any) map[string]any) {
+	w := func(extra map[string]any) map[string]any {
+		extra["root"] = sr.root.String()
+		extra["root_stored_at_step"] = sr.step
+		extra["read_through"] = via
+		extra["model_of_that_root"] = modelDump(sr.main)
+		return wit(extra)
+	}
+	root := sr.root
+	keys := append([][]byte{}, pool...)
+	keys = append(keys, sr.main.Keys()...)
+	keys = append(keys, absentProbes(c.R, sr.main, 6)...)
+	seen := map[string]bool{}
+	for _, k := range keys {
+		if seen[string(k)] {
+			continue
+		}
+		seen[string(k)] = true
+		c.Eval(1)
+		c.Count("state_chain_getstorage", 1)
+		want, present := sr.main.Get(k)
+		got, err := inst.GetStorage(&root, k)
+		switch {
+		case err != nil:
+			c.Violation("state-chain-getstorage-error", fmt.Sprintf("GetStorage(root of step %d, %s) through %s: %v", sr.step, hx(k), via, err), w(map[string]any{"key": hx(k)}))
+			return
+		case present && (got == nil || !bytes.Equal(got, want)):
+			c.Violation("state-chain-getstorage", fmt.Sprintf("GetStorage(root of step %d, %s) through %s =%s, that state has %s", sr.step, hx(k), via, short(got), short(want)),
+				w(map[string]any{"key": hx(k), "got": hx(got), "want": hx(want)}))
+			return
+		case !present && got != nil:
+			c.Violation("state-chain-getstorage-absent", fmt.Sprintf("GetStorage(root of step %d, %s) through %s =%s, the key is absent from that state", sr.step, hx(k), via, short(got)),
+				w(map[string]any{"key": hx(k), "got": hx(got)}))
+			return
+		}
+	}
+	c.Eval(1)
+	ents, err := inst.Entries(&root)
+	if err != nil {
+		c.Violation("state-chain-entries-error", fmt.Sprintf("Entries(root of step %d) through %s: %v", sr.step, via, err), w(map[string]any{}))
+		return
+	} else if d := diffEntries(ents, sr.main); d != "" {
+		c.Violation("state-chain-entries", fmt.Sprintf("Entries(root of step %d) through %s differ: %s", sr.step, via, d), w(map[string]any{}))
+		return
+	}
+	for name, cm := range sr.childs {
+		c.Eval(1)
+		c.Count("state_chain_child_tries_read", 1)
+		ct, err := inst.GetStorageChild(&root, []byte(name))
+		if err != nil || ct == nil {
+			c.Violation("state-chain-child-missing", fmt.Sprintf("GetStorageChild(root of step %d, %s) through %s: trie=%v err=%v", sr.step, name, via, ct != nil, err),
+				w(map[string]any{"child": name, "model_child": modelDump(cm)}))
+			return
+		}
+		if d := diffEntries(ct.Entries(), cm); d != "" {
+			c.Violation("state-chain-child-entries", fmt.Sprintf("child %s of the root of step %d through %s differs: %s", name, sr.step, via, d),
+				w(map[string]any{"child": name, "model_child": modelDump(cm)}))
+			return
+		}
+		cks, cvs := cm.Entries()
+		for i, k := range cks {
+			c.Eval(1)
+			got, err := inst.GetStorageFromChild(&root, []byte(name), k)
+			if err != nil || got == nil || !bytes.Equal(got, cvs[i]) {
+				c.Violation("state-chain-child-read", fmt.Sprintf("GetStorageFromChild(root of step %d, %s, %s) through %s =%s err=%v, that state has %s", sr.step, name, hx(k), via, short(got), err, short(cvs[i])),
+					w(map[string]any{"child": name, "key": hx(k), "model_child": modelDump(cm)}))
+				return
+			}
+		}
+	}
+}
+
+func runStateSuccessors(c *vcommon.Case) {
+	tbl, err := caseTable(c, "ss")
+	if err != nil {
+		c.Inconclusive("cannot open the in-memory pebble database: " + err.Error())
+		return
+	}
+	db := tableDB{tbl}
+	ver := c.R.Intn(2)
+	prof := c.R.Intn(nProfiles)
+	pool := genKeyPool(c.R, c.R.Range(3, 10))
+	var cnames [][]byte
+	if c.R.Chance(2, 5) {
+		for i := 0; i < c.R.Range(1, 2); i++ {
+			cnames = append(cnames, []byte(fmt.Sprintf("c%d", i)))
+		}
+	}
+	main := vcommon.NewOrdMap()
+	childs := childModels{}
+	var hist []string
+	logf := func(f string, a ...any) { hist = append(hist, fmt.Sprintf(f, a...)) }
+	wit := func(extra map[string]any) map[string]any {
+		w := map[string]any{"version": ver, "history": hist}
+		for k, v := range extra {
+			w[k] = v
+		}
+		return w
+	}
+	fresh := func() *state.InmemoryStorageState {
+		s, err := state.NewStorageState(db, nil, state.NewTries())
+		if err != nil {
+			panic(err)
+		}
+		return s
+	}
+	inst := fresh()
+	prev := trie.EmptyHash
+	var stored []storedRoot
+	steps := c.R.Range(2, 5)
+	misses := 0
+	for step := 0; step < steps; step++ {
+		// cache hit: the instance that stored (and caches) Rprev; cache MISS: a fresh
+		// instance whose TrieState call has to load Rprev from the database
+		if step > 0 && c.R.Bool() {
+			inst = fresh()
+			misses++
+			logf("fresh instance (TrieState on a cache miss)")
+			c.Count("state_cache_miss_successors", 1)
+		} else if step > 0 {
+			c.Count("state_cache_hit_successors", 1)
+		}
+		ts, err := inst.TrieState(&prev)
+		if err != nil {
+			c.Violation("state-triestate-error", fmt.Sprintf("TrieState(%s): %v", prev, err), wit(nil))
+			return
+		}
+		ts.SetVersion(layout(ver))
+		for i, n := 0, c.R.Range(1, 6); i < n; i++ {
+			k := vcommon.Pick(c.R, pool)
+			var err error
+			switch x := c.R.Intn(10); {
+			case x < 6 || (x >= 8 && len(cnames) == 0):
+				v := genValue(c.R, prof)
+				logf("put %s %s", hx(k), hx(v))
+				main.Put(k, v)
+				err = ts.Put(k, v)
+			case x < 8:
+				ks := main.Keys()
+				if len(ks) == 0 {
+					continue
+				}
+				k = vcommon.Pick(c.R, ks)
+				if bytes.HasPrefix(k, inmemory.ChildStorageKeyPrefix) {
+					continue
+				}
+				logf("delete %s", hx(k))
+				main.Delete(k)
+				err = ts.Delete(k)
+			default:
+				name := vcommon.Pick(c.R, cnames)
+				v := genValue(c.R, prof)
+				if it, ok := ts.Trie().(*inmemory.InMemoryTrie); ok {
+					if dn, croot, bad := danglingChild(it, cnames); bad {
+						c.Known("C04-K1", fmt.Sprintf("in-memory state is ill-formed: main trie stores child root %s for child %s but the child trie object is gone (child tries with equal content alias each other)", hx(croot), hx(dn)),
+							wit(map[string]any{"child": hx(dn), "child_root": hx(croot)}))
+						return
+					}
+				}
+				logf("child %s put %s %s", hx(name), hx(k), hx(v))
+				err = ts.SetChildStorage(name, k, v)
+				if childs[string(name)] == nil {
+					childs[string(name)] = vcommon.NewOrdMap()
+				}
+				childs[string(name)].Put(k, v)
+				if cr := ts.Get(childStorageKey(name)); cr != nil {
+					main.Put(childStorageKey(name), cr)
+				}
+			}
+			if err != nil {
+				c.Inconclusive("TrieState operation failed (not a C04 matter): " + err.Error())
+				return
+			}
+		}
+		if it, ok := ts.Trie().(*inmemory.InMemoryTrie); ok {
+			if name, croot, bad := danglingChild(it, cnames); bad {
+				c.Known("C04-K1", fmt.Sprintf("in-memory state is ill-formed before StoreTrie: main trie stores child root %s for child %s but the child trie object is gone (child tries with equal content alias each other)", hx(croot), hx(name)),
+					wit(map[string]any{"child": hx(name), "child_root": hx(croot)}))
+				return
+			}
+		}
+		if d := diffEntries(ts.TrieEntries(), main); d != "" {
+			c.Count("note_model_resynced_to_inmemory_main", 1)
+			logf("(model resynchronised to the TrieState: %s)", d)
+			main = mapToModel(ts.TrieEntries())
+		}
+		root, err := ts.Trie().Hash()
+		if err != nil {
+			c.Inconclusive(err.Error())
+			return
+		}
+		logf("storetrie #%d root %s (successor of %s)", step, root, prev)
+		c.Count("state_chain_storetrie", 1)
+		if err := inst.StoreTrie(ts, nil); err != nil {
+			c.Violation("state-storetrie-error", err.Error(), wit(nil))
+			return
+		}
+		stored = append(stored, storedRoot{root: root, main: main.Clone(), childs: childs.clone(), step: step})
+		prev = root
+
+		// every root stored so far, through the same instance and through a fresh one
+		reader := fresh()
+		for _, sr := range stored {
+			if sr.step < step {
+				c.Count("state_earlier_roots_reread", 1)
+			}
+			rereadRoot(c, inst, "the instance that stored the successor", sr, pool, wit)
+			if c.Failed() {
+				return
+			}
+			rereadRoot(c, reader, "a fresh instance", sr, pool, wit)
+			if c.Failed() {
+				return
+			}
+			c.Eval(1)
+			lt, err := fresh().LoadFromDB(sr.root)
+			if err != nil {
+				c.Violation("state-chain-loadfromdb-error", fmt.Sprintf("LoadFromDB(root of step %d): %v", sr.step, err), wit(map[string]any{"root": sr.root.String()}))
+				return
+			}
+			if h, err := lt.Hash(); err != nil || h != sr.root {
+				c.Violation("state-chain-loadfromdb-root", fmt.Sprintf("LoadFromDB(root of step %d).Hash()=%s err=%v want %s", sr.step, h, err, sr.root), wit(map[string]any{"root": sr.root.String()}))
+				return
+			}
+		}
+	}
+	c.Distinct(fmt.Sprintf("succ|v%d|%d|%d|%d|m%d", ver, main.Len(), len(childs), steps, misses))
+	c.Sample(map[string]any{"group": "statechain", "roots": len(stored), "cache_miss_successors": misses, "final_keys": main.Len(), "child_tries": len(childs)})
+}
+
+// ---------------------------------------------------------------------------
 
 func TestVerifC04(t *testing.T) {
 	r := vcommon.Start(t, "C04")
@@ -822,6 +1069,11 @@ func TestVerifC04(t *testing.T) {
 	r.Floor("post_load_mutations", 100)
 	r.Floor("state_getstorage_present", 300)
 	r.Floor("state_child_reads", 20)
+	r.Floor("state_cache_miss_successors", 150)
+	r.Floor("state_cache_hit_successors", 150)
+	r.Floor("state_earlier_roots_reread", 600)
+	r.Floor("state_chain_getstorage", 10000)
+	r.Floor("state_chain_child_tries_read", 100)
 
 	r.Fixed("corpus", len(c04Corpus), func(c *vcommon.Case) { runC04Fixed(c, c04Corpus[c.Idx]) })
 	r.Fixed("corpus-k1", 1, runC04K1)
@@ -845,4 +1097,5 @@ func TestVerifC04(t *testing.T) {
 	})
 
 	r.Cases("state", r.Scale(400), runStateChain)
+	r.Cases("statechain", r.Scale(300), runStateSuccessors)
 }
